@@ -52,7 +52,34 @@ def formulas(env, fam):
     F += [m.BVULE(t, Pl["v"][1]) for t in Pl["v"][-4:]]
     F += [m.Equals(m.Select(t, Pl["i"][0]), Pl["i"][1]) for t in Pl["a"][-3:]]
     F += [m.LT(t, Pl["r"][1]) for t in Pl["r"][-3:]]
-    return F + uf_formulas(env, fam)
+    return F + nf_formulas(env, fam) + uf_formulas(env, fam)
+
+
+N_NF = 12     # block of formulas whose simplification is not a fixpoint of the simplifier; index -N_UF - N_NF + j
+
+
+def nf_formulas(env, fam):
+    m = env.formula_manager
+    Pl = fam.pool
+    x, y = Pl["i"][0], Pl["i"][1]
+    r, q = Pl["r"][0], Pl["r"][1]
+    I = m.Int
+    N = [
+        m.LE(m.Plus(x, m.Times(x, I(-1))), y),                          # (x - x) <= y, then 0 <= y
+        m.LE(m.Plus(I(1), m.Minus(I(2), y)), x),                        # ((2 + 1) - y), then (3 - y)
+        m.LE(m.Plus(x, m.Minus(I(0), x)), y),
+        m.LE(m.Plus(I(1), m.Plus(I(2), m.Minus(I(3), y))), x),
+        m.LE(m.Plus(m.Minus(I(2), y), m.Minus(I(3), x)), y),
+        m.LT(m.Plus(r, m.Times(r, m.Real(-1))), q),
+        m.Equals(m.Plus(x, m.Times(I(-1), x)), y),
+        m.And(m.LE(m.Plus(x, m.Times(x, I(-1))), y), m.LE(y, x)),
+        m.Or(m.LE(m.Plus(I(1), m.Minus(I(2), y)), x), Pl["b"][0]),
+        m.LE(m.Plus(m.Plus(x, m.Times(x, I(-1))), m.Plus(I(1), m.Minus(I(2), y))), x),
+        m.Ite(Pl["b"][0], m.LE(m.Plus(x, m.Minus(I(0), x)), y), m.LE(y, m.Plus(I(1), m.Minus(I(2), y)))),
+        m.LE(m.Minus(m.Plus(x, y), x), m.Plus(y, m.Times(y, I(-1)))),
+    ]
+    assert len(N) == N_NF
+    return N
 
 
 N_UF = 24     # size of the block below; adversarial orders address it from the end: index -N_UF + j
@@ -136,7 +163,24 @@ def submaps(env, fam):
 
 KINDS = ["simplify", "substitute", "fv", "atoms", "qf", "types", "theory", "logic", "get_type", "size",
          "smtlib_dag", "smtlib_tree", "serialize", "reparse", "nnf", "aig", "prenex", "build", "const",
-         "bad_substitute", "bad_build", "bad_simplify"]
+         "bad_substitute", "bad_build", "bad_simplify", "simplify_result", "simplify_around"]
+
+_SCRATCH = {}
+
+
+def scratch_simplified(fam, i):
+    """the simplification of formula i computed in a separate environment (kept alive with its result)"""
+    seed, n = fam.seed_n
+    key = (seed, n, i)
+    if key not in _SCRATCH:
+        env2, fam2 = P15.make_env(seed, n)
+        push_env(env2)
+        try:
+            F2 = formulas(env2, fam2)
+            _SCRATCH[key] = (env2, F2[i % len(F2)].simplify())
+        finally:
+            pop_env()
+    return _SCRATCH[key][1]
 
 CONSTS = [("Int", 1), ("Int", 1.0), ("Int", True), ("Real", 2), ("Real", 2.0), ("Real", True), ("Real", (4, 2)),
           ("Real", 1), ("Int", 0), ("Int", False), ("Real", 0.5), ("Real", (1, 2)), ("Int", 2 ** 70), ("Real", 1.0),
@@ -205,6 +249,13 @@ def do_call(env, fam, F, maps, call):
     if kind == "build":
         g = F[j % len(F)]
         return [m.And(f, g), m.Or(m.Not(f), g), m.Iff(f, g), m.Ite(f, g, m.Not(g)), m.Implies(g, f)][(i + j) % 5]
+    if kind in ("simplify_result", "simplify_around"):
+        # the node that an earlier simplify(F[i]) returned, built here by construction (no simplifier involved),
+        # is simplified on its own / inside a larger formula
+        g = m.normalize(scratch_simplified(fam, i))
+        if kind == "simplify_result":
+            return g.simplify()
+        return m.Or(m.Not(g), fam.pool["b"][1], m.And(g, fam.pool["b"][0])).simplify()
     if kind == "bad_substitute":      # ill-typed substitution: raises somewhere inside the walk
         Pl = fam.pool
         bad = [{Pl["i"][0]: m.Real(1)}, {Pl["b"][0]: Pl["i"][0]}, {Pl["v"][0]: m.BV(1, 4)}, {Pl["i"][1]: Pl["r"][0]},
@@ -228,6 +279,7 @@ def do_call(env, fam, F, maps, call):
 def run_history(seed, n, hist, probe, repeat=False, check_memo=True):
     """-> (outcome of the probe, identity of the repetition)"""
     env, fam = P15.make_env(seed, n)
+    fam.seed_n = (seed, n)
     push_env(env)
     try:
         F = formulas(env, fam)
@@ -333,6 +385,15 @@ def adversarial(rng):
             out.append(("uf-shared-then-app", [("logic", u(qq), 0)], ("logic", u(h), 0)))
             out.append(("uf-parent-child", [("theory", u(h), 0), ("theory", u(qq), 0), ("logic", u(12), 0)],
                         ("theory", u(23), 0)))
+    # simplify(f), then simplify of the node it returned (built by construction) -- alone and inside a formula
+    nf = lambda j: -N_UF - N_NF + j
+    for j in range(N_NF):
+        out.append(("simplify-then-result", [("simplify", nf(j), 0)], ("simplify_result", nf(j), 0)))
+        out.append(("simplify-then-result", [("simplify", nf(j), 0)], ("simplify_around", nf(j), 0)))
+        out.append(("simplify-then-result", [("simplify", nf(j), 0), ("simplify", nf((j + 1) % N_NF), 0)],
+                    ("simplify_result", nf(j), 0)))
+    for i in (0, 1, 2, 3, 5, 9):
+        out.append(("simplify-then-result", [("simplify", i, 0)], ("simplify_result", i, 0)))
     # failing calls in the history, then the same kind of call with good arguments
     for bk, gk in (("bad_substitute", "substitute"), ("bad_simplify", "simplify"), ("bad_build", "build"),
                    ("bad_substitute", "simplify"), ("bad_simplify", "substitute")):
@@ -397,6 +458,109 @@ def walker_history_case(ctx, rng, seed, n, reqs):
         ctx.case(("walker-history", spec.name, seed, tuple(ops)) if shared else None)
     finally:
         pop_env()
+
+
+FRESH_USERS = [
+    # user symbols named like the templates of fresh symbols
+    [("FV0", "b"), ("FV1", "i"), ("FV7", "b"), ("__z0", "i")],
+    [("FV0", "i"), ("FV1", "b"), ("FV2", "r"), ("__z0", "b"), ("__z1", "i")],
+    [("FV0", "b"), ("FV1", "b"), ("FV2", "b"), ("FV3", "b"), ("__z0", "i"), ("z0", "i")],
+]
+
+
+def fresh_ops(env, U):
+    """operations that introduce fresh symbols: [(name, input formulas, thunk)]"""
+    m = env.formula_manager
+    INT, BOOL, REAL = types.INT, types.BOOL, types.REAL
+    a, b = m.Symbol("a", BOOL), m.Symbol("b", BOOL)
+    x, y = m.Symbol("x", INT), m.Symbol("y", INT)
+    ub = [u for u in U if u.symbol_type().is_bool_type()]
+    ui = [u for u in U if u.symbol_type().is_int_type()]
+    u0 = ub[0] if ub else a
+    i0 = ui[0] if ui else x
+    f = m.Symbol("f", types.FunctionType(INT, [INT]))
+    qv = m.Symbol("qv", BOOL)
+    cnf_in = m.And(m.Not(u0), m.Or(a, b), m.Iff(a, m.And(b, u0)))
+    prenex_in = m.And(u0, m.ForAll([qv], m.Or(qv, a)), m.Not(m.Exists([qv], m.And(qv, b))))
+    ack_in = m.And(m.Equals(m.Function(f, [i0]), m.Function(f, [y])), m.LE(m.Function(f, [m.Plus(i0, y)]), x), u0)
+    text = "(declare-fun x () Int)(define-fun g ((z Int)) Int (+ z 1))(assert (> (g x) 0))"
+    return [
+        ("FreshSymbol", [], lambda: m.FreshSymbol()),
+        ("FreshSymbol-int", [], lambda: m.FreshSymbol(INT)),
+        ("FreshSymbol-template", [], lambda: m.FreshSymbol(INT, "__z%d")),
+        ("FreshSymbol-template2", [], lambda: m.FreshSymbol(REAL, "z%d")),
+        ("cnf", [cnf_in], lambda: rewritings.cnf(cnf_in, env)),
+        ("prenex", [prenex_in], lambda: rewritings.prenex_normal_form(prenex_in, env)),
+        ("ackermann", [ack_in], lambda: rewritings.Ackermannizer(env).do_ackermannization(ack_in)),
+        ("define-fun", [], lambda: [c.args for c in SmtLibParser(env).get_script(io.StringIO(text)).commands
+                                    if c.name in ("define-fun", "assert")]),
+    ]
+
+
+def fresh_case(ctx, users, neutral, n_hist, opi):
+    """-> (outcome kind, key up to fresh / user names, list of fresh symbols that already existed)"""
+    env = Environment()
+    push_env(env)
+    try:
+        m = env.formula_manager
+        ty = {"b": types.BOOL, "i": types.INT, "r": types.REAL}
+        U = [m.Symbol(("usr%d" % k) if neutral else nm, ty[t]) for k, (nm, t) in enumerate(users)]
+        for k in range(n_hist):
+            P15.outcome(lambda: m.FreshSymbol([types.BOOL, types.INT][k % 2]))
+        name, inputs, th = fresh_ops(env, U)[opi]
+        before = set(m.symbols.values())
+        in_syms = set()
+        for f in inputs:
+            in_syms |= set(f.get_free_variables())
+        k, v = P15.outcome(th)
+        if k != "ok":
+            return name, ("exc", v), []
+        res_nodes = []
+
+        def collect(o):
+            if isinstance(o, FNode):
+                res_nodes.append(o)
+            elif isinstance(o, (list, tuple, set, frozenset)):
+                for z in o:
+                    collect(z)
+        collect(v)
+        res_syms = set()
+        for f in res_nodes:
+            res_syms |= set(f.get_free_variables()) | ({f} if f.is_symbol() else set())
+            for nd in W.abstract_graph(f, lambda k_: k_.args())[0]:
+                if nd.is_quantifier():
+                    res_syms |= set(nd.quantifier_vars())
+        introduced = res_syms - in_syms - set(U) - {s for s in before if s.symbol_name() in ("a", "b", "x", "y", "f", "qv")}
+        stale = sorted(s.symbol_name() for s in (res_syms - in_syms) if s in before and s in set(U))
+        clash = sorted(s.symbol_name() for s in introduced if s in before)
+        labels = {u: ("user", i) for i, u in enumerate(U)}
+        for s_ in res_syms:
+            if s_ not in before:
+                labels[s_] = ("fresh", str(s_.symbol_type()))
+        key = W.result_key([W.structural_key(f, ac=True, labels=labels) for f in res_nodes])
+        return name, ("ok", key), stale + clash
+    finally:
+        pop_env()
+
+
+def fresh_symbol_cases(ctx, rng, quick):
+    for ui, users in enumerate(FRESH_USERS):
+        for opi in range(8):
+            for n_hist in ([0, 1, 3] if quick else [0, 1, 2, 3, 5, 8]):
+                name, got, clash = fresh_case(ctx, users, False, n_hist, opi)
+                _, ref, _ = fresh_case(ctx, users, True, 0, opi)
+                ctx.case(("fresh", ui, name, n_hist))
+                ctx.count("fresh:" + name)
+                replay = {"fresh": True, "users": ui, "op": opi, "history": n_hist}
+                if clash:
+                    ctx.report_s({"oracle": "fresh-symbol-clash", "probe": name},
+                                 "%s returned / introduced the symbol(s) %s, which the user had already created "
+                                 "(user symbols %s, %d earlier FreshSymbol calls)" % (name, clash, users, n_hist), replay)
+                elif got != ref:
+                    ctx.report_s({"oracle": "fresh-symbol-history", "probe": name},
+                                 "%s with user symbols named %s after %d FreshSymbol calls gives %s; with neutral "
+                                 "names and no history %s" % (name, [u[0] for u in users], n_hist, str(got)[:80],
+                                                              str(ref)[:80]), replay)
 
 
 THEORY_FIELDS = ["arrays", "arrays_const", "bit_vectors", "floating_point", "integer_arithmetic", "real_arithmetic",
@@ -509,6 +673,8 @@ def run(ctx):
         check_case(ctx, seed, n, hist, probe, tag, stats)
         ctx.case((tag, tuple(hist), probe))
         ctx.count("adv:" + tag)
+    # 1b. fresh symbols next to user symbols named like fresh templates
+    fresh_symbol_cases(ctx, rng, quick)
     # 2. random histories
     n_hist = 1200 if quick else 12000
     for i in range(n_hist):
@@ -565,6 +731,15 @@ def replay(ctx, rep):
     sys.setrecursionlimit(1000)
     r = rep.get("replay", {})
     stats = {"ac_needed": 0}
+    if r.get("fresh"):
+        users = FRESH_USERS[r["users"]]
+        name, got, clash = fresh_case(ctx, users, False, r["history"], r["op"])
+        _, ref, _ = fresh_case(ctx, users, True, 0, r["op"])
+        if clash or got != ref:
+            ctx.report_s({"oracle": "fresh-symbol-clash" if clash else "fresh-symbol-history", "probe": name},
+                         "replay: %s clash=%s got=%s ref=%s" % (name, clash, str(got)[:80], str(ref)[:80]), r)
+        ctx.case(("replay-fresh", name))
+        return
     if "hist" not in r:
         ctx.report_k("replay: re-run VERIF_SEED=%s ./check C14" % rep.get("seed"), r)
         return
